@@ -5,6 +5,7 @@ from . import core_sec as cs
 from . import core_alloc as ca
 from . import core_strat as st_
 from . import algos_sched as sched
+from . import algos_flow as flow
 
 UPD = [("date", "date"), ("data", "none"), ("inow", "optint")]
 
@@ -47,12 +48,15 @@ def build():
     for c in sched.contracts():
         reg(c)
     verifiers.pop("bt.algos.RunPeriod.compare_dates")
+    for c, v in flow.contracts():
+        reg(c, v)
     inline = {"bt.core.is_zero", "bt.core.SecurityBase.commission"}
     loops = {
         ("bt.core.SecurityBase.allocate", 0): ca.ALLOC_LOOP,
         ("bt.core.StrategyBase.update", 0): st_.LOOP1,
         ("bt.core.StrategyBase.update", 1): st_.LOOP2,
     }
+    loops.update(flow.LOOPS)
     # state merging at if-joins keeps StrategyBase.update at tens of paths; for the non-linear sizing
     # search of allocate separate paths are much easier for the solver
     options = {"bt.core.SecurityBase.allocate": dict(merge=False)}
